@@ -9,11 +9,30 @@ property on the generated TREE): one segment per element in closing order with t
 name/path/attributes/trimmed direct text; each routed list = exactly the segments whose names are
 configured for that route; Fields of a routed segment = its direct child elements with non-empty
 trimmed direct text (last duplicate wins); header = root element.
+
+Call sequences: the whole op file is ONE harness process.  A second stream (`call <mode> …`) makes
+the harness behave like a long-running caller: the configuration lives in persistent buffers that
+are rewritten in place between calls (`append(names[:0], …)`, `cfg.ItemSegments[i] = …`, same
+lengths / other lengths / rotated between the routes), is passed again unchanged, or is a freshly
+allocated deep-equal copy; documents from a small pool are interleaved.  The Lean model is a pure
+function per call (`Idoc.callStep`, theorem explode_depends_only_on_own_call), the tree-level
+monitor uses the configuration of the call itself, so any state carried from one call to the next
+shows up as a violation (`result-depends-on-earlier-calls`, with the shortest window of calls that
+reproduces it as replay).  The harness also reports a configuration / input buffer modified by
+ExplodeXML and an earlier Result that changes after it was returned.
+
+Regenerated fact (go/ast, harness/C45/extract): the package-level variables of pkg/idoc and the
+sites in function bodies that write / lock / alias them -> lean/KafVerif/Gen/C45Vars.lean,
+obligation no_package_level_state (every variable: 0 such sites).
 """
+import json
+import os
+import subprocess
+
 from checks import lib
 
 PROPERTY = "C45"
-LEAN_MODULES = ["KafVerif.Props.C45"]
+LEAN_MODULES = ["KafVerif.Props.C45", "KafVerif.Gen.C45Vars"]
 OBLIGATIONS = [
     "KafVerif.C45.explode_eq_spec",
     "KafVerif.C45.segments_postorder",
@@ -21,19 +40,92 @@ OBLIGATIONS = [
     "KafVerif.C45.fields_direct",
     "KafVerif.C45.segments_are_elements",
     "KafVerif.C45.old_violates_routes",
+    "KafVerif.C45.explode_depends_only_on_own_call",   # every history: i-th result = explode of the i-th (config, document)
+    "KafVerif.C45.calls_eq_spec",                      # ... = the prescribed record for that call's own configuration
+    "KafVerif.C45.value_keyed_memo_transparent",       # a last-config memo with its own copy of the key is invisible
+    "KafVerif.C45.aliased_memo_violates",              # witness: a memo whose key aliases the caller's slices is not
+    "KafVerif.C45.no_package_level_state",             # regenerated from pkg/idoc on every run (go/ast extractor)
 ]
+ENGINES = ["lean-kafverif", "go-overlay-harness", "ast-extract"]
 ASSUMPTIONS = [
     "encoding/xml tokenisation is a parameter: a well-formed document yields the Start/CharData/End token stream of its tree "
     "(entities decoded, CDATA as CharData, comments/PI/prolog as other token kinds, Name.Local never empty); namespace prefixes are not generated",
     "adjacent CharData tokens concatenate, so the model's one-token-per-text-node stream and the decoder's chunking give the same values",
     "Go maps (Attributes, Fields) are compared as sorted key/value lists; nil and empty maps are not distinguished",
+    "no cross-call state: a call is modelled as a pure function of its own configuration VALUE and document (process state = Unit). "
+    "Validated by the sequence stream (one harness process for all calls; configurations rewritten in place in reused buffers, passed "
+    "unchanged, deep-equal fresh copies, reshaped, rotated between routes; documents interleaved; earlier Results re-read after later "
+    "calls) diffed against the per-call model, and by the regenerated fact no_package_level_state (pkg/idoc declares no package-level "
+    "variable that a function body writes, locks or lets escape). Concurrent calls are not explored",
 ]
-TECHNIQUE = "Lean 4: refinement theorem by mutual structural induction over XML trees (stack machine of ExplodeXML on the token stream = post-order spec), differential correspondence + tree-level property monitor on the real ExplodeXML"
+TECHNIQUE = ("Lean 4: refinement theorem by mutual structural induction over XML trees (stack machine of ExplodeXML on the token stream = post-order spec), "
+             "call-sequence theorem (result depends on the call's own arguments only), differential correspondence + tree-level property monitor on the "
+             "real ExplodeXML over single calls and over call sequences in one process, go/ast-regenerated package-variable table")
 LEVEL_TEXT = ("proof: explode_eq_spec (for every forest and configuration: header, Segments = post-order list of prescribed entries, each routed "
               "list = filter of Segments by its configured names) with corollaries segments_postorder, routes_exact, fields_direct, "
-              "segments_are_elements — all full strength")
+              "segments_are_elements; explode_depends_only_on_own_call / calls_eq_spec (every call history: each result is the prescribed record "
+              "for that call's own configuration and document) — all full strength; no_package_level_state regenerated from the source")
 LEVEL_NOTE = "correspondence and monitors are testing; they tie the model to the current source"
 BUILDS = {"h": ("root", "./cmd/verif_c45", ["C45"])}
+
+EXPLODE_GO = "pkg/idoc/explode.go"
+GEN_FILE = os.path.join(lib.LEAN, "KafVerif", "Gen", "C45Vars.lean")
+
+
+# ---------------------------------------------------------------- regenerated fact: package-level variables of pkg/idoc
+def extract_vars():
+    """Run the go/ast extractor on the CURRENT pkg/idoc; returns the JSON table."""
+    src = os.path.join(lib.REPO, EXPLODE_GO)
+    p = subprocess.run(["go", "run", "main.go", "-f", src], cwd=os.path.join(lib.HARNESS, "C45", "extract"),
+                       env=lib.go_env(), capture_output=True, text=True)
+    if p.returncode != 0:
+        raise RuntimeError("extractor failed: " + p.stderr[-1500:])
+    return json.loads(p.stdout)
+
+
+def lean_vars(table):
+    rows = []
+    for v in table["pkg_vars"] or []:
+        n = v["writes"] + v["methods"] + v["aliases"]
+        rows.append("  -- %s:%d  var %s (%s): %d write, %d method-call, %d alias sites in function bodies; %d mentions\n  ⟨%d, %d⟩" % (
+            v["file"], v["line"], v["name"], v["kind"], v["writes"], v["methods"], v["aliases"], v["reads"], v["line"], n))
+    out = ["import KafVerif.Model.Idoc",
+           "/-! GENERATED by checks/C45.py from %s (harness/C45/extract; files: %s; %d functions) — do not edit. -/" % (
+               os.path.dirname(EXPLODE_GO), ", ".join(table["files"]), table["funcs"]),
+           "namespace KafVerif.Gen.C45Vars", "open KafVerif.Idoc", "",
+           "/-- every package-level `var` of pkg/idoc (non-test files) and how many sites in function bodies can change what a",
+           "later call sees through it -/",
+           "def pkgVars : List VarRow := [" + ("\n" + ",\n".join(rows) if rows else "") + "]", "",
+           "end KafVerif.Gen.C45Vars", "",
+           "/-- **C45 (generated).** Nothing survives from one `ExplodeXML` call to the next: no package-level variable of the",
+           "current pkg/idoc is written, locked, method-called (struct / sync kinds) or aliased (map / slice / pointer kinds) by a",
+           "function body.  Read-only tables and compiled regexps are fine; a memo of the last configuration is not. -/",
+           "theorem KafVerif.C45.no_package_level_state :",
+           "    ∀ v ∈ KafVerif.Gen.C45Vars.pkgVars, v.mutations = 0 :=",
+           "  (KafVerif.Idoc.varsOk_iff _).1 (by decide)", ""]
+    return "\n".join(out)
+
+
+def failing_vars(table):
+    """Python twin of Idoc.varsOk (only used to NAME the offending variables in the report)."""
+    bad = []
+    for v in table["pkg_vars"] or []:
+        if v["writes"] + v["methods"] + v["aliases"] > 0:
+            bad.append("%s:%d  var %s (%s) carries state between calls: %s" % (v["file"], v["line"], v["name"], v["kind"], ", ".join(v["sites"] or [])))
+    return bad
+
+
+def generate(ck):
+    table = extract_vars()
+    os.makedirs(os.path.dirname(GEN_FILE), exist_ok=True)
+    new = lean_vars(table)
+    if not os.path.exists(GEN_FILE) or open(GEN_FILE).read() != new:
+        tmp = GEN_FILE + ".tmp%d" % os.getpid()
+        open(tmp, "w").write(new)
+        os.replace(tmp, GEN_FILE)
+    ck.count("package_level_vars", len(table["pkg_vars"] or []))
+    ck.count("functions_scanned", table["funcs"])
+    ck.var_failures = failing_vars(table)
 
 HTML_VOID = {"basefont", "br", "area", "link", "img", "param", "hr", "input", "col", "frame", "isindex", "base", "meta"}
 GO_SPACE = set(chr(c) for c in [0x20, 9, 10, 11, 12, 13, 0x85, 0xA0, 0x1680, 0x2028, 0x2029, 0x202F, 0x205F, 0x3000] + list(range(0x2000, 0x200B)))
@@ -160,6 +252,102 @@ def gen_doc(rng):
     return cfg, root, "doc %s %s %s %s %s" % (cfg_str(cfg[0]), cfg_str(cfg[1]), cfg_str(cfg[2]), cfg_str(cfg[3]), ";".join(toks))
 
 
+# ---------------------------------------------------------------- call sequences (one process, reused configuration buffers)
+SEQ_NAMES = ROUTE_NAMES[:6]
+SEQ_ODD = ["A,B", "A|B", "A B", "E1EDP01,E1EDKA1", " A ", "", "E1EDP01 "]     # join-key collisions, padded / blank entries
+SEQ_FIELDS = ["POSEX", "PARVW", "STATU", "DATUM", "DOCNUM", "A", "B"]
+
+
+def seq_name(rng):
+    return rng.choice(SEQ_NAMES) if rng.chance(9, 10) else rng.choice(SEQ_ODD)
+
+
+def gen_seq_cfg(rng):
+    return [[seq_name(rng) for _ in range(rng.choice([0, 1, 1, 1, 2, 2, 3]))] for _ in range(4)]
+
+
+def gen_seq_tree(rng):
+    """IDOC with 2-6 segments named like routable names, each with a few leaf fields (so that routing by
+    another call's names is visible in the routed lists AND in which segments carry Fields)."""
+    if rng.chance(1, 4):
+        return gen_tree(rng, rng.choice([1, 2, 3]), [rng.choice([3, 6, 10])])
+    segs = []
+    for _ in range(rng.range(2, 6)):
+        kids = []
+        for _ in range(rng.choice([0, 1, 2, 3])):
+            kids.append(Node(rng.choice(SEQ_FIELDS), [], [("T", rng.choice(TEXTS))]))
+            if rng.chance(1, 5):
+                kids.append(("T", "\n"))
+        if rng.chance(1, 6):
+            kids.append(Node(rng.choice(SEQ_NAMES), [], [("T", rng.choice(TEXTS))]))
+        segs.append(Node(rng.choice(SEQ_NAMES), [("SEGMENT", "1")] if rng.chance(1, 3) else [], kids))
+    return Node("IDOC", [("BEGIN", "1")], segs)
+
+
+def call_op(mode, cfg, root):
+    return "call %s %s %s %s %s %s" % (mode, cfg_str(cfg[0]), cfg_str(cfg[1]), cfg_str(cfg[2]), cfg_str(cfg[3]), ";".join(tokens(root, [])))
+
+
+def gen_sequence(rng, n):
+    """-> [(kind, cfg, root, op)].  `persist` mirrors the harness's persistent configuration buffers."""
+    out, persist, last, pool = [], None, None, []
+    for i in range(n):
+        if i % 60 == 0:
+            pool = [gen_seq_tree(rng.fork()) for _ in range(8)]
+        r = rng.below(100)
+        if persist is None:
+            kind = "first"
+        elif r < 36:
+            kind = "inplace-change"
+        elif r < 50:
+            kind = "same"
+        elif r < 56:
+            kind = "rewrite-same-content"
+        elif r < 68:
+            kind = "equal-fresh"
+        elif r < 79:
+            kind = "fresh-new"
+        elif r < 91:
+            kind = "reshape"
+        else:
+            kind = "rotate"
+        if kind == "inplace-change" and not any(persist):
+            kind = "reshape"
+        if kind in ("first", "reshape"):
+            mode, cfg = "reuse", gen_seq_cfg(rng)
+        elif kind == "inplace-change":
+            mode = rng.choice(["reuse", "inplace"])
+            cfg = [list(l) for l in persist]
+            slots = [(a, b) for a in range(4) for b in range(len(cfg[a]))]
+            todo = rng_sample(rng, slots, rng.choice([1, 1, 2, len(slots)]))
+            for a, b in todo:
+                old = cfg[a][b]
+                for _ in range(8):
+                    cfg[a][b] = seq_name(rng)
+                    if go_trim(cfg[a][b]) != go_trim(old):
+                        break
+        elif kind == "same":
+            mode, cfg = "same", [list(l) for l in persist]
+        elif kind == "rewrite-same-content":
+            mode, cfg = rng.choice(["reuse", "inplace"]), [list(l) for l in persist]
+        elif kind == "equal-fresh":
+            mode, cfg = "fresh", [list(l) for l in last]
+        elif kind == "fresh-new":
+            mode = "fresh"
+            cfg = gen_seq_cfg(rng)
+            if rng.chance(1, 2):            # same shape as the remembered one, other names
+                cfg = [[seq_name(rng) for _ in l] for l in last]
+        else:
+            k = rng.range(1, 3)
+            mode, cfg = rng.choice(["reuse", "inplace"]), [list(persist[(a + k) % 4]) for a in range(4)]
+        if mode != "fresh":
+            persist = cfg
+        last = cfg
+        root = rng.choice(pool) if rng.chance(3, 4) else gen_seq_tree(rng.fork())
+        out.append((kind, cfg, root, call_op(mode, cfg, root)))
+    return out
+
+
 # ---------------------------------------------------------------- the property on the tree
 def cfg_set(l):
     return set(go_trim(v) for v in l if go_trim(v) != "")
@@ -219,8 +407,28 @@ def has_void_name(node):
     return any(has_void_name(c) for c in node.children if isinstance(c, Node))
 
 
+MARKERS = (" input-bytes-modified", " config-modified", " changed-after-return=")
+
+
+def split_markers(o):
+    """harness line -> (result line, [caller-side monitor markers])"""
+    cut = min([o.find(m) for m in MARKERS if o.find(m) >= 0] or [len(o)])
+    return o[:cut], o[cut:].split()
+
+
 def monitor(cfg, root, o):
     """Returns (fingerprint, what) or None."""
+    o, marks = split_markers(o)
+    for m in marks:
+        if m == "config-modified":
+            return "explode-modifies-callers-configuration", "ExplodeXML changed the routing lists of the configuration it was given"
+        if m == "input-bytes-modified":
+            return "explode-modifies-input-bytes", "ExplodeXML changed the bytes of the document it was given"
+        if m.startswith("changed-after-return="):
+            return ("earlier-result-changed-by-later-call",
+                    "the Result returned %s call(s) earlier reads differently after this call" % m.split("=")[1])
+    if o == "bad-op":
+        return "harness-rejected-op", "the harness could not run this op (bad-op)"
     if o == "panic":
         return "explode-panics", "ExplodeXML panicked on a well-formed document"
     if o == "err":
@@ -280,6 +488,54 @@ def fixed_docs():
     return docs
 
 
+def run_fresh_process(ck, binary, ops, tag):
+    """ops through a NEW harness process -> impl lines or None"""
+    impl, _, crash = run_lines(ck, binary, ops, tag)
+    return None if crash else impl
+
+
+def line_bad(op, io):
+    try:
+        cfg, root = rebuild(op)
+        return monitor(cfg, root, io)
+    except Exception as e:
+        return ("result-line-unparsable", "%r on %s" % (e, io[:200]))
+
+
+def diagnose_sequence(ck, binary, seq_ops, i, bad):
+    """Call i of the op list (all calls of the one harness process so far) failed its monitor.  If the same call (same configuration value, same document,
+    freshly allocated) passes alone in a new process, the result depends on the calls made before it: report that, with
+    the shortest window of preceding calls that still reproduces it.  Returns (fingerprint, what, replay ops)."""
+    op = seq_ops[i]
+    f = op.split()
+    alone = "call fresh " + " ".join(f[2:]) if f[0] == "call" else op
+    r = run_fresh_process(ck, binary, [alone], "alone")
+    if r is None or line_bad(alone, r[0]) is not None:
+        return bad[0], bad[1], [alone if r is not None and line_bad(alone, r[0]) is not None else op]
+    for back in (1, 2, 3, 5, 8, 13, 21, i):
+        j = max(0, i - back)
+        win = seq_ops[j:i + 1]
+        r = run_fresh_process(ck, binary, win, "window")
+        if r is None or any(split_markers(x)[0] == "bad-op" for x in r):
+            continue
+        if line_bad(win[-1], r[-1]) is not None and all(line_bad(o, x) is None for o, x in zip(win[:-1], r[:-1])):
+            # drop calls of the window that are not needed (keeps the last one)
+            keep = lib.ddmin(win[:-1], lambda c: (lambda rr: rr is not None and not any(split_markers(x)[0] == "bad-op" for x in rr)
+                                                  and line_bad(win[-1], rr[-1]) is not None)(run_fresh_process(ck, binary, c + [win[-1]], "ddmin")))
+            rr = run_fresh_process(ck, binary, keep + [win[-1]], "ddmin")
+            if rr is None or line_bad(win[-1], rr[-1]) is None:
+                keep = win[:-1]
+            return ("result-depends-on-earlier-calls",
+                    "call %d of a sequence in one process (%s) violates the property [%s: %s] but the same configuration and document "
+                    "exploded alone are fine: state is carried over from the %d earlier call(s) in the replay" % (
+                        i, " ".join(f[:2]) if f[0] == "call" else "doc", bad[0], bad[1][:300], len(keep)), keep + [win[-1]])
+        if j == 0:
+            break
+    return ("result-depends-on-earlier-calls",
+            "call %d of the sequence (%s) violates the property [%s] but passes alone; no shorter window reproduces it" % (i, f[0], bad[0]),
+            seq_ops[:i + 1])
+
+
 def run(ck):
     bins = ck.build_all()
     if bins is None:
@@ -287,10 +543,16 @@ def run(ck):
     binary = bins["h"]
     q = ck.quick()
     ck.cov["rule"] = ("a case = one generated document (tree of <= 40 elements, depth <= 6, mixed content, attributes, CDATA, comments, self-closing "
-                      "elements, prolog) + routing configuration (0-3 names per route, overlapping/blank/padded entries); non-trivial: >= 3 elements "
-                      "and at least one routed list non-empty; distinct = distinct op lines")
+                      "elements, prolog) + routing configuration (0-3 names per route, overlapping/blank/padded entries), exploded either by a single "
+                      "call with a fresh configuration or as one call of a sequence in the same process whose configuration buffers are reused / "
+                      "rewritten in place; non-trivial: >= 3 elements and at least one routed list non-empty; distinct = distinct op lines")
+    if getattr(ck, "var_failures", None):
+        ck.broke("package-level variables regenerated from pkg/idoc (KafVerif.C45.no_package_level_state)",
+                 "ExplodeXML must depend on the configuration and document of the call only; state that survives a call:\n" + "\n".join(ck.var_failures))
     docs = fixed_docs() + [gen_doc(ck.rng.fork()) for _ in range(700 if q else 8000)]
-    ops = [d[2] for d in docs]
+    seq = gen_sequence(ck.rng.fork(), 900 if q else 12000)
+    cases = [("doc", c, r, o) for c, r, o in docs] + seq
+    ops = [c[3] for c in cases]
     # malformed stream (totality only): byte-level damage of serialised-looking inputs
     raws = []
     seeds = [b"<IDOC><A>1</A></IDOC>", b"<a><b>x</b><c/></a>", b"<?xml version=\"1.0\"?><r k=\"v\">t<![CDATA[z]]></r>"]
@@ -315,7 +577,9 @@ def run(ck):
         return
     model = ck.lean_run("C45", fn)
     first_corr = None
-    for i, (cfg, root, op) in enumerate(docs):
+    seq_diagnosed = False
+    prev_cfg = None
+    for i, (kind, cfg, root, op) in enumerate(cases):
         io, mo = impl[i], model[i] if i < len(model) else None
         nseg = op.count(";S") + op.count(";s") + 1
         routed_nonempty = io.startswith("ok") and any(
@@ -324,17 +588,28 @@ def run(ck):
         ck.count("documents"); ck.count("elements", nseg)
         ck.count("docs_with_overlapping_routes", 1 if len(set().union(*[cfg_set(l) for l in cfg])) < sum(len(cfg_set(l)) for l in cfg) else 0)
         ck.count("docs_with_html_void_names", 1 if has_void_name(root) else 0)
+        if kind != "doc":
+            ck.count("sequence_calls"); ck.count("sequence_" + kind.replace("-", "_"))
+            if prev_cfg is not None and [[go_trim(v) for v in l] for l in prev_cfg] != [[go_trim(v) for v in l] for l in cfg]:
+                ck.count("sequence_calls_config_differs_from_previous_call")
+            prev_cfg = cfg
         ck.cov["traces_validated_against_impl"] += 1
         try:
             bad = monitor(cfg, root, io)
         except Exception as e:
             bad = ("result-line-unparsable", "%r on %s" % (e, io[:200]))
-        if bad:
+        if bad and (kind != "doc" or bad[0] == "earlier-result-changed-by-later-call"):
+            if not seq_diagnosed:            # diagnose the FIRST failing call of the sequence (later ones may be consequences)
+                seq_diagnosed = True
+                fp, what, rops = diagnose_sequence(ck, binary, ops[:len(cases)], i, bad)
+                ck.violation(fp, what, {"ops": rops, "impl": io[:3000], "expected": "tree-level property monitor true on every call of the sequence",
+                                        "actual": bad[1], "call_index": i, "kind": kind})
+        elif bad:
             ck.violation(bad[0], bad[1], {"ops": [op], "impl": io[:3000], "expected": "tree-level property monitor true", "actual": bad[1]})
         elif io != mo and first_corr is None:
             first_corr = (op, io, mo)
     for j, op in enumerate(raws):
-        io = impl[len(docs) + j]
+        io = impl[len(cases) + j]
         ck.count("malformed_inputs"); ck.count("malformed_" + io.replace(" ", "_"))
         ck.cov["evaluations"] += 1
         if io == "panic":
@@ -348,6 +623,8 @@ def run(ck):
 def rebuild(op):
     """op line -> (cfg, root) for the monitor (replay)."""
     f = op.split()
+    if f[0] == "call":
+        f = f[1:]
     cfg = [[] if x == "_" else [unhx(h) for h in x.split(",")] for x in f[1:5]]
     stack, root = [], None
     for t in f[5].split(";"):
@@ -385,11 +662,13 @@ def replay(ck, path):
     for o, r in zip(ops, impl):
         print("  %-80s -> %s" % (o[:80], r[:300]))
         ck.case(o, sample={"op": o[:300]})
-        if o.startswith("doc "):
-            cfg, root = rebuild(o)
-            bad = monitor(cfg, root, r)
+        if o.startswith("doc ") or o.startswith("call "):
+            bad = line_bad(o, r)
             if bad:
-                ck.violation(bad[0], bad[1], {"ops": [o], "actual": bad[1]})
+                fp = bad[0]
+                if len(ops) > 1 and rep.get("fingerprint") == "result-depends-on-earlier-calls":
+                    fp = "result-depends-on-earlier-calls"
+                ck.violation(fp, bad[1], {"ops": ops, "actual": bad[1]})
         elif r == "panic":
             ck.violation("explode-panics-on-malformed-input", "panic", {"ops": [o]})
     ck.cov["distinct_nontrivial"] = max(ck.cov["distinct_nontrivial"], 2)
